@@ -4,8 +4,8 @@ pub use nom;
 
 use nom::branch::alt;
 use nom::bytes::complete::tag;
-use nom::character::complete::{alpha1, digit1, hex_digit1, multispace0, multispace1};
-use nom::combinator::{map, opt, recognize, verify};
+use nom::character::complete::{alpha1, anychar, digit1, hex_digit1, multispace0, multispace1};
+use nom::combinator::{map, not, opt, recognize, verify};
 use nom::error::{ErrorKind, ParseError};
 use nom::multi::{many0, many1};
 use nom::sequence::{delimited, preceded, terminated, tuple};
@@ -968,7 +968,14 @@ fn public_id(input: &str) -> IResult<&str, &str> {
 fn ns_att_name(input: &str) -> IResult<&str, model::AttributeName<'_>> {
     alt((
         map(preceded(tag("xmlns:"), ncname), model::AttributeName::from), // [2] PrefixedAttName
-        map(tag("xmlns"), |_| model::AttributeName::default()),           // [3] DefaultAttName
+        map(
+            // [3] DefaultAttName: the whole name, not the beginning of `xmlnsfoo`
+            terminated(
+                tag("xmlns"),
+                not(verify(anychar, |c: &char| xmlchar::is_name_char(*c))),
+            ),
+            |_| model::AttributeName::default(),
+        ),
     ))(input)
 }
 
